@@ -221,7 +221,13 @@ def build(spec):
     if kind == "np":
         return numpy.dtype(spec["dtype"]).type(unj(spec["v"]))
     if kind == "list":
-        return unj_nested(spec["data"])
+        data = unj_nested(spec["data"])
+        if spec.get("tuple"):
+            # the same array-like spelled as a (nested) tuple
+            def freeze(x):
+                return tuple(freeze(v) for v in x) if isinstance(x, list) else x
+            return freeze(data)
+        return data
     if kind == "arr":
         arr = numpy.array(unj_nested(spec["data"]), dtype=spec["dtype"]).reshape(spec["shape"])
         layout = spec.get("layout", "C")
@@ -266,7 +272,8 @@ def build(spec):
             poly = poly.T
         return poly
     if kind == "plist":
-        return [build(item) for item in spec["items"]]
+        items = [build(item) for item in spec["items"]]
+        return tuple(items) if spec.get("tuple") else items
     raise ValueError(kind)
 
 
@@ -312,10 +319,11 @@ def spec_features(spec):
         return {"kind": "arr:" + spec.get("layout", "C"), "coef": spec["dtype"],
                 "shape": tuple(spec["shape"]), "nterms": 1, "names": ()}
     if kind == "list":
-        return {"kind": "list", "coef": "", "shape": tuple(numpy.shape(unj_nested(spec["data"]))),
+        return {"kind": "tuple" if spec.get("tuple") else "list", "coef": "", "shape": tuple(numpy.shape(unj_nested(spec["data"]))),
                 "nterms": 1, "names": ()}
     if kind == "plist":
-        return {"kind": "plist", "coef": "", "shape": (len(spec["items"]),), "nterms": 2,
+        return {"kind": "ptuple" if spec.get("tuple") else "plist", "coef": "",
+                "shape": (len(spec["items"]),), "nterms": 2,
                 "names": ()}
     return {"kind": kind, "coef": spec.get("dtype", type(unj(spec["v"])).__name__),
             "shape": (), "nterms": 1, "names": ()}
